@@ -180,8 +180,23 @@ def axis(rep, prog, rule):
                     if not re.search(r"::(from_ref|new)$", c.name):
                         continue
                     for a in c.args:
-                        s = fmt(gs.operand(a, (c.bb, "term")))
-                        if re.search(r"\bMul\b.*\bDiv\b", s) and "Add" in s:
+                        e = gs.operand(a, (c.bb, "term"))
+                        s = fmt(e)
+
+                        def div_of_mul(x):
+                            if not isinstance(x, tuple) or not x:
+                                return False
+                            y = x
+                            while y[0] in ("cast", "ovf"):
+                                y = y[2] if y[0] == "cast" else y[1]
+                            if y[0] == "bin" and y[1] == "Div":
+                                z = y[2]
+                                while z[0] in ("cast", "ovf"):
+                                    z = z[2] if z[0] == "cast" else z[1]
+                                if z[0] == "bin" and z[1] == "Mul":
+                                    return True
+                            return any(div_of_mul(w) for w in y if isinstance(w, tuple))
+                        if div_of_mul(e) and "Add" in s and "min(" not in s:
                             prop = (c, s)
             if prop is not None and nimg == 2 and len(calls) == 1:
                 rep.bad(rule, key + "|hand-made-bands", prop[0].at, "%s splits only one image with "
